@@ -14,7 +14,7 @@ demo_file=$(ls $out | grep '\.go$' | head -1)
 pkg=./$(dirname $demo_path)/
 run=$(grep -o 'func Test[A-Za-z0-9_]*' $out/$demo_file | head -1 | sed 's/func //')
 cd $wt && git checkout -q . && git clean -fdq
-cp "$out/$demo_file" "$wt/$demo_path"
+mkdir -p "$(dirname "$wt/$demo_path")"; cp "$out/$demo_file" "$wt/$demo_path"
 echo "--- demo WITHOUT the change (must pass)"
 go1.26.8 test -vet=off -overlay $ov -count=1 -run "$(grep -o 'func Test[A-Za-z0-9_]*' $out/$demo_file | sed 's/func //' | paste -sd'|')" $pkg 2>&1 | tail -3
 git apply $out/patch.diff || { echo "PATCH DOES NOT APPLY"; exit 9; }
